@@ -157,7 +157,7 @@ func allSeeds() []seed {
 				"refdct-0": true, "refdct-1": true, "refdct-2": true, "refdct-grey-dri": true,
 				"lossless-P2-c1-pred1": true, "lossless-P8-c3-pred4": true, "lossless-P12-c1-pred7": true, "lossless-P16-c3-pred1": true, "sv1-P8-c1": true, "sv1-P16-c3": true,
 				"reft81-0": true, "reft81-1": true, "reft81-2": true,
-				"jpegls-P2-c1": true, "jpegls-P8-c3": true, "jpegls-P16-c1": true, "jpegls-near-P8-c1": true, "jpegls-near-P12-c3": true, "jpegls-near-P16-c1": true, "jpegls-lse": true}
+				"jpegls-P2-c1": true, "jpegls-P8-c3": true, "jpegls-P16-c1": true, "jpegls-near-P8-c1": true, "jpegls-near-P12-c3": true, "jpegls-near-P16-c1": true, "jpegls-lse": true, "jpegls-ladder-near0": true, "jpegls-ladder-near2": true}
 			var out []seed
 			for _, sd := range seedList {
 				if sd.Fam != famJPEG || keep[sd.Name] {
@@ -168,6 +168,16 @@ func allSeeds() []seed {
 		}
 	})
 	return seedList
+}
+
+// safeEnc runs an encoder call of the library; a panic there is not this check's subject (C17 owns it) and only costs the seed.
+func safeEnc(f func() ([]byte, error)) (b []byte, err error) {
+	defer func() {
+		if r := recover(); r != nil {
+			b, err = nil, fmt.Errorf("encoder panicked: %v", r)
+		}
+	}()
+	return f()
 }
 
 func buildSeeds() {
@@ -186,11 +196,11 @@ func buildSeeds() {
 	for _, sz := range [][2]int{{1, 1}, {3, 2}, {9, 9}} {
 		for _, nc := range []int{1, 3} {
 			for _, q := range []int{1, 90} {
-				b, err := baseline.Encode(px(sz[0], sz[1], nc, 8, 5), sz[0], sz[1], nc, q)
+				b, err := safeEnc(func() ([]byte, error) { return baseline.Encode(px(sz[0], sz[1], nc, 8, 5), sz[0], sz[1], nc, q) })
 				add(fmt.Sprintf("baseline-%dx%dx%d-q%d", sz[0], sz[1], nc, q), famJPEG, b, err)
 			}
 		}
-		b, err := extended.Encode(px(sz[0], sz[1], 1, 12, 5), sz[0], sz[1], 1, 12, 75)
+		b, err := safeEnc(func() ([]byte, error) { return extended.Encode(px(sz[0], sz[1], 1, 12, 5), sz[0], sz[1], 1, 12, 75) })
 		add(fmt.Sprintf("extended12-%dx%d", sz[0], sz[1]), famJPEG, b, err)
 	}
 	// reference DCT streams: subsampling, DRI, optimised tables, APPn
@@ -204,10 +214,10 @@ func buildSeeds() {
 	for _, p := range []int{2, 8, 12, 16} {
 		for _, nc := range []int{1, 3} {
 			for _, pred := range []int{1, 4, 7} {
-				b, err := lossless.Encode(px(3, 3, nc, p, 5), 3, 3, nc, p, pred)
+				b, err := safeEnc(func() ([]byte, error) { return lossless.Encode(px(3, 3, nc, p, 5), 3, 3, nc, p, pred) })
 				add(fmt.Sprintf("lossless-P%d-c%d-pred%d", p, nc, pred), famJPEG, b, err)
 			}
-			b, err := lossless14sv1.Encode(px(3, 2, nc, p, 5), 3, 2, nc, p)
+			b, err := safeEnc(func() ([]byte, error) { return lossless14sv1.Encode(px(3, 2, nc, p, 5), 3, 2, nc, p) })
 			add(fmt.Sprintf("sv1-P%d-c%d", p, nc), famJPEG, b, err)
 		}
 	}
@@ -228,18 +238,39 @@ func buildSeeds() {
 	// JPEG-LS
 	for _, p := range []int{2, 8, 12, 16} {
 		for _, nc := range []int{1, 3} {
-			b, err := lsl.Encode(px(4, 3, nc, p, 5), 4, 3, nc, p)
+			b, err := safeEnc(func() ([]byte, error) { return lsl.Encode(px(4, 3, nc, p, 5), 4, 3, nc, p) })
 			add(fmt.Sprintf("jpegls-P%d-c%d", p, nc), famJPEG, b, err)
 			near := 1
 			if p == 16 {
 				near = 255
 			}
-			b, err = lsn.Encode(px(4, 3, nc, p, 3), 4, 3, nc, p, near)
+			b, err = safeEnc(func() ([]byte, error) { return lsn.Encode(px(4, 3, nc, p, 3), 4, 3, nc, p, near) })
 			add(fmt.Sprintf("jpegls-near-P%d-c%d", p, nc), famJPEG, b, err)
 		}
 	}
+	// JPEG-LS run-index ladder: 131 070 equal samples in two lines of 65 535 drive RUNindex to its top value 31 and ask for
+	// one more step. Written by hand (the scan is 34 one-bits: 31 completed run segments and the end-of-line bit in line 1,
+	// one completed segment of 2^15 and the end-of-line bit in line 2) so that it does not depend on the library's encoder;
+	// used only if the independent T.87 decoder reads it as the all-zero image.
+	for _, near := range []byte{0, 2} {
+		st := []byte{0xFF, 0xD8, 0xFF, 0xF7, 0x00, 0x0B, 0x08, 0x00, 0x02, 0xFF, 0xFF, 0x01, 0x01, 0x11, 0x00,
+			0xFF, 0xDA, 0x00, 0x08, 0x01, 0x01, 0x00, near, 0x00, 0x00,
+			0xFF, 0x7F, 0xFF, 0x7F, 0xFF, 0x7F, 0xFF, 0x7F, 0xFF, 0xD9}
+		if img, err := ref.T87Decode(st); err == nil && img.W == 65535 && img.H == 2 {
+			zero := true
+			for _, v := range img.Samples {
+				if v != 0 {
+					zero = false
+					break
+				}
+			}
+			if zero {
+				add(fmt.Sprintf("jpegls-ladder-near%d", near), famJPEG, st, nil)
+			}
+		}
+	}
 	// JPEG-LS with an LSE segment (preset parameters) spliced in front of SOS
-	if b, err := lsl.Encode(px(4, 3, 1, 8, 5), 4, 3, 1, 8); err == nil {
+	if b, err := safeEnc(func() ([]byte, error) { return lsl.Encode(px(4, 3, 1, 8, 5), 4, 3, 1, 8) }); err == nil {
 		i := bytes.Index(b, []byte{0xFF, 0xDA})
 		lse := []byte{0xFF, 0xF8, 0x00, 0x0D, 0x01, 0x00, 0xFF, 0x00, 0x03, 0x00, 0x07, 0x00, 0x15, 0x00, 0x40}
 		add("jpegls-lse", famJPEG, append(append(append([]byte{}, b[:i]...), lse...), b[i:]...), nil)
@@ -288,7 +319,7 @@ func buildSeeds() {
 		p := jpeg2000.DefaultEncodeParams(v.w, v.h, v.nc, v.p, false)
 		v.f(p)
 		pix := packJ2K(j2kContent(j2kCase{W: v.w, H: v.h, C: v.nc, P: v.p, Signed: p.IsSigned, K: 1}), v.p)
-		b, err := jpeg2000.NewEncoder(p).Encode(pix)
+		b, err := safeEnc(func() ([]byte, error) { return jpeg2000.NewEncoder(p).Encode(pix) })
 		add("j2k-"+v.name, famJ2K, b, err)
 	}
 	// synthesised optional segments spliced after QCD of the grey stream
@@ -391,6 +422,15 @@ func e3Jobs(prop, tier string) []e3Job {
 		for si := range seeds {
 			jobs = append(jobs, e3Job{4, si, 0, 1})
 		}
+	}
+	// structured JPEG 2000 generators: image/tile origin lattice per seed, packet-header lattice
+	for si, s := range seeds {
+		if s.Fam == famJ2K && s.DevHi == 0 && !strings.HasPrefix(s.Name, "fixture") {
+			jobs = append(jobs, e3Job{5, si, 0, 1})
+		}
+	}
+	for p := 0; p < 8; p++ {
+		jobs = append(jobs, e3Job{6, 0, p, 8})
 	}
 	return jobs
 }
@@ -500,6 +540,214 @@ func forEachCase(prop, tier string, j e3Job, fn func(c e3Case)) {
 		rleLatticeCases(prop, j, fn)
 	case 4:
 		sizeFieldCases(seeds[j.Seed], run)
+	case 5:
+		sizOriginLattice(seeds[j.Seed], run)
+	case 6:
+		packetHeaderLattice(j, run)
+	}
+}
+
+// sizOriginLattice: the same image placed at every origin of a boundary lattice on the reference grid, independently per
+// axis, with the tile grid anchored either at 0 (one tile reaching up to the image's far edge) or at the image origin.
+// All of these are well-formed codestreams that declare the seed's own width x height.
+func sizOriginLattice(s seed, run func(fam int, in []byte, fi *imagetypes.FrameInfo, desc string)) {
+	b := s.Data
+	i := bytes.Index(b, []byte{0xFF, 0x51})
+	if i < 0 || i+38 > len(b) {
+		return
+	}
+	rd := func(k int) uint64 { return uint64(binary.BigEndian.Uint32(b[i+6+4*k:])) }
+	if rd(2) != 0 || rd(3) != 0 || rd(6) != 0 || rd(7) != 0 {
+		return
+	}
+	w, h := rd(0), rd(1)
+	if rd(4) < w || rd(5) < h {
+		return // tiled seed: the lattice is for single-tile streams
+	}
+	origins := []uint64{0, 1, 5, 1 << 16, 0x7FFFFFF0, 0xF0000000}
+	for _, ox := range origins {
+		for _, oy := range origins {
+			for _, ax := range []int{0, 1} {
+				for _, ay := range []int{0, 1} {
+					if ox == 0 && oy == 0 {
+						continue
+					}
+					if ox+w > 0xFFFFFFFF || oy+h > 0xFFFFFFFF {
+						continue
+					}
+					c := append([]byte(nil), b...)
+					put := func(k int, v uint64) { binary.BigEndian.PutUint32(c[i+6+4*k:], uint32(v)) }
+					put(0, ox+w)
+					put(1, oy+h)
+					put(2, ox)
+					put(3, oy)
+					if ax == 0 {
+						put(4, ox+w)
+						put(6, 0)
+					} else {
+						put(4, w)
+						put(6, ox)
+					}
+					if ay == 0 {
+						put(5, oy+h)
+						put(7, 0)
+					} else {
+						put(5, h)
+						put(7, oy)
+					}
+					run(s.Fam, c, nil, fmt.Sprintf("%s image origin (%d,%d) tile anchor (%d,%d)", s.Name, ox, oy, ax, ay))
+				}
+			}
+		}
+	}
+}
+
+// j2kBitWriter writes packet-header bits with the bit stuffing of B.10.1 (a byte after 0xFF carries 7 bits).
+type j2kBitWriter struct {
+	out  []byte
+	cur  byte
+	free int
+}
+
+func newJ2KBitWriter() *j2kBitWriter { return &j2kBitWriter{free: 8} }
+func (w *j2kBitWriter) bit(v int) {
+	w.free--
+	w.cur |= byte(v&1) << uint(w.free)
+	if w.free == 0 {
+		w.out = append(w.out, w.cur)
+		if w.cur == 0xFF {
+			w.free = 7
+		} else {
+			w.free = 8
+		}
+		w.cur = 0
+	}
+}
+func (w *j2kBitWriter) bits(v uint64, n int) {
+	for k := n - 1; k >= 0; k-- {
+		if k >= 64 {
+			w.bit(0)
+			continue
+		}
+		w.bit(int(v >> uint(k) & 1))
+	}
+}
+func (w *j2kBitWriter) flush() []byte {
+	full := 8
+	if len(w.out) > 0 && w.out[len(w.out)-1] == 0xFF {
+		full = 7
+	}
+	if w.free != full {
+		w.out = append(w.out, w.cur)
+		if w.cur == 0xFF {
+			w.out = append(w.out, 0)
+		}
+	} else if len(w.out) > 0 && w.out[len(w.out)-1] == 0xFF {
+		w.out = append(w.out, 0)
+	}
+	return w.out
+}
+
+var packetBaseOnce sync.Once
+var packetBase []byte // main header of an 8x8, 8-bit, 0-level, one-layer stream (one packet, one code-block)
+
+// packetHeaderLattice: every packet header of the one-code-block grammar
+//   non-empty bit, inclusion, z zero-bit-plane zeros, number-of-passes codeword, k Lblock increments, length field
+// over boundary values of z, passes, k and the length value, followed by 0, 3 or 16 body bytes.
+func packetHeaderLattice(j e3Job, run func(fam int, in []byte, fi *imagetypes.FrameInfo, desc string)) {
+	packetBaseOnce.Do(func() {
+		p := jpeg2000.DefaultEncodeParams(8, 8, 1, 8, false)
+		p.NumLevels = 0
+		b, err := safeEnc(func() ([]byte, error) { return jpeg2000.NewEncoder(p).Encode(make([]byte, 64)) })
+		if err != nil {
+			return
+		}
+		if i := bytes.Index(b, []byte{0xFF, 0x90}); i > 0 {
+			packetBase = append([]byte(nil), b[:i]...)
+		}
+	})
+	if packetBase == nil {
+		return
+	}
+	passCode := func(w *j2kBitWriter, n int) {
+		switch {
+		case n == 1:
+			w.bit(0)
+		case n == 2:
+			w.bits(2, 2)
+		case n <= 5:
+			w.bits(3, 2)
+			w.bits(uint64(n-3), 2)
+		case n <= 36:
+			w.bits(15, 4)
+			w.bits(uint64(n-6), 5)
+		default:
+			w.bits(0x1FF, 9)
+			w.bits(uint64(n-37), 7)
+		}
+	}
+	zs := []int{0, 1, 7, 8, 31, 40, 100}
+	passes := []int{1, 2, 3, 5, 6, 36, 37, 164}
+	ks := []int{0, 1, 5, 13, 28, 29, 30, 31, 32, 33, 61, 64, 100}
+	bodies := []int{0, 3, 16}
+	n := 0
+	for _, z := range zs {
+		for _, np := range passes {
+			for _, k := range ks {
+				for lv := 0; lv < 5; lv++ {
+					for _, bl := range bodies {
+						n++
+						if n%j.Parts != j.Part {
+							continue
+						}
+						w := newJ2KBitWriter()
+						w.bit(1) // packet present
+						w.bit(1) // code-block included
+						for q := 0; q < z; q++ {
+							w.bit(0)
+						}
+						w.bit(1)
+						passCode(w, np)
+						for q := 0; q < k; q++ {
+							w.bit(1)
+						}
+						w.bit(0)
+						lb := 3 + k
+						for t := np; t > 1; t >>= 1 {
+							lb++
+						}
+						var val uint64
+						switch lv {
+						case 0:
+							val = 0
+						case 1:
+							val = 1
+						case 2:
+							val = ^uint64(0)
+						case 3:
+							if lb <= 64 {
+								val = 1 << uint(lb-1)
+							}
+						case 4:
+							val = uint64(bl)
+						}
+						w.bits(val, lb)
+						hdr := w.flush()
+						body := make([]byte, bl)
+						for q := range body {
+							body[q] = byte(0x35 + 41*q)
+						}
+						tile := append(append([]byte{}, hdr...), body...)
+						psot := 12 + 2 + len(tile)
+						st := append([]byte(nil), packetBase...)
+						st = append(st, 0xFF, 0x90, 0x00, 0x0A, 0x00, 0x00, byte(psot>>24), byte(psot>>16), byte(psot>>8), byte(psot), 0x00, 0x01, 0xFF, 0x93)
+						st = append(st, tile...)
+						st = append(st, 0xFF, 0xD9)
+						run(famJ2K, st, nil, fmt.Sprintf("packet header z=%d passes=%d Lblock+%d length-variant %d body %d", z, np, k, lv, bl))
+					}
+				}
+			}
+		}
 	}
 }
 
@@ -870,6 +1118,15 @@ func Worker(args []string) int {
 	if len(args) >= 1 && args[0] == "one" {
 		return workerOne(args[1:])
 	}
+	if len(args) >= 2 && args[0] == "c18ref" {
+		return c18RefWorker(args[1])
+	}
+	if len(args) >= 2 && args[0] == "c18batch" {
+		return c18BatchWorker(args[1])
+	}
+	if len(args) >= 2 && args[0] == "c18" {
+		return c18Worker(args[1])
+	}
 	if len(args) >= 2 && args[0] == "c17count" {
 		cs := c17Cases(args[1])
 		by := map[int]int{}
@@ -950,7 +1207,7 @@ func Worker(args []string) int {
 			if prop == "C08" {
 				// inputs declaring more than 2^12 samples cost up to megabytes to gigabytes of fresh memory each (page faults dominate in this VM): quick keeps a
 				// deterministic 1/16 of them, thorough runs them all (time and memory are C09's subject)
-				if sz, decl := declaredSamples(cs.In); decl && sz > 1<<12 {
+				if sz, decl := declaredSamples(cs.In); decl && sz > 1<<12 && !strings.HasSuffix(cs.Desc, " unchanged") {
 					hugeSeen++
 					run := false
 					h := eng.Hash(cs.In)
